@@ -441,15 +441,30 @@ def run_child_case(case):
             f.write(b"\n".join(bytes(x) for x in fslines) + (b"\n" if fslines else b""))
         old = psutil.PROCFS_PATH
         psutil.PROCFS_PATH = proc
+        model = getmntent_model(blob)
+
+        def utf8(b_):
+            try:
+                b_.decode("utf-8")
+                return True
+            except UnicodeDecodeError:
+                return False
         try:
             try:
                 got = psutil.disk_partitions(all=all_)
                 raw = cl.disk_partitions(os.path.join(proc, "self", "mounts"))
-            except UnicodeDecodeError:
-                return Result(["mounts", "mounts-undecodable"], None)
+            except UnicodeDecodeError as e:
+                # type and options are plain C strings decoded as UTF-8: an
+                # entry whose type/options are not UTF-8 cannot be returned.
+                # Device and mount point are file names (raw bytes are
+                # legal): they alone must not make the call fail
+                if model is None or any(not utf8(typ) or not utf8(opts) for _d, _m, typ, opts in model):
+                    return Result(["mounts", "mounts-undecodable"], None)
+                raise Violation("mounts-decoding",
+                                f"disk_partitions() raised {e!r}; only device / mount point names "
+                                f"carry non-UTF-8 bytes: {[(d_, m_) for d_, m_, _t, _o in model if not utf8(d_) or not utf8(m_)][:3]}") from None
         finally:
             psutil.PROCFS_PATH = old
-        model = getmntent_model(blob)
         labels = ["mounts", "mounts-all" if all_ else "mounts-physical"]
         if model is None:
             labels.append("mounts-long-line-crash-only")
